@@ -369,6 +369,10 @@ pub enum SigMut {
     HintRunaway { bound: u8 },
     /// the index list of one polynomial starts with position 0 listed twice (counts raised by one)
     HintLeadingZeroTwice { poly: u8 },
+    /// the nth index byte is listed twice in a row (later index bytes shift by one, counts from its polynomial on grow
+    /// by one): the SET of hinted positions is unchanged, so a decoder that tolerates the repetition yields a signature
+    /// that verifies
+    HintDuplicateInsert { nth: u8 },
     RandomZ(u64),
     RandomHint(u64),
     RandomAll(u64),
@@ -392,6 +396,7 @@ pub fn sig_mut() -> impl Strategy<Value = SigMut> {
         1 => (any::<u8>(), any::<bool>()).prop_map(|(nth, high)| SigMut::IndexEdge { nth, high }),
         1 => any::<u8>().prop_map(|bound| SigMut::HintRunaway { bound }),
         2 => any::<u8>().prop_map(|poly| SigMut::HintLeadingZeroTwice { poly }),
+        2 => any::<u8>().prop_map(|nth| SigMut::HintDuplicateInsert { nth }),
         1 => any::<u64>().prop_map(SigMut::RandomZ),
         1 => any::<u64>().prop_map(SigMut::RandomHint),
         1 => any::<u64>().prop_map(SigMut::RandomAll),
@@ -417,6 +422,7 @@ impl SigMut {
             SigMut::IndexEdge { .. } => "IndexEdge",
             SigMut::HintRunaway { .. } => "HintRunaway",
             SigMut::HintLeadingZeroTwice { .. } => "HintLeadingZeroTwice",
+            SigMut::HintDuplicateInsert { .. } => "HintDuplicateInsert",
             SigMut::RandomZ(_) => "RandomZ",
             SigMut::RandomHint(_) => "RandomHint",
             SigMut::RandomAll(_) => "RandomAll",
@@ -569,6 +575,20 @@ pub fn apply_mut(p: &Params, sig: &[u8], m: &SigMut) -> Vec<u8> {
                             s[hoff + om + j] += 1;
                         }
                     }
+                }
+            }
+        }
+        SigMut::HintDuplicateInsert { nth } => {
+            let n = used(&s);
+            if n >= 1 && n < om && (0..p.k).all(|i| (s[hoff + om + i] as usize) <= om) {
+                let i = *nth as usize % n;
+                let pi = (0..p.k).find(|pi| (s[hoff + om + pi] as usize) > i).unwrap_or(p.k - 1);
+                for j in (i + 2..=n).rev() {
+                    s[hoff + j] = s[hoff + j - 1];
+                }
+                s[hoff + i + 1] = s[hoff + i];
+                for j in pi..p.k {
+                    s[hoff + om + j] += 1;
                 }
             }
         }
